@@ -192,6 +192,10 @@ func openBase(in *Interp) {
 			}
 			j = bs[0]
 		}
+		if j-i+1 >= 8000 {
+			// lbaselib.c luaB_unpack: lua_checkstack fails beyond LUAI_MAXCSTACK (8000)
+			in.throw(&Opaque{Kind: "anystring", Rest: "too many results to unpack"})
+		}
 		if j-i+1 > 200 {
 			in.indet("unpack of many values")
 		}
